@@ -86,6 +86,11 @@ func NewVoteDB(db youdb.Database, rawSk *ecdsa.PrivateKey) *VoteDB {
 	nextIndex2 := ReadVoteData(v.db, v.addr, NextIndex, 2)
 	updateFn(nextIndex2)
 
+	// the certificate vote is persisted like the others and must be restored like the others,
+	// otherwise a restart inside a certificate round allows a second certificate vote
+	certificate := ReadVoteData(v.db, v.addr, Certificate, 1)
+	updateFn(certificate)
+
 	return v
 }
 
@@ -97,8 +102,13 @@ func (v *VoteDB) UpdateContext(round *big.Int, roundIndex uint32) {
 	v.lock.Lock()
 	defer v.lock.Unlock()
 
-	if v.round != nil && v.round.Cmp(round) == 0 && v.roundIndex == roundIndex {
-		return
+	// The voting context only moves forward. A context that is not ahead of the one already voted in
+	// (a restart that begins again at round index 1, a stale RoundIndexChangeEvent that lowers the index)
+	// must neither clear the marks nor lower (round, roundIndex): the votes signed there stay signed.
+	if v.round != nil {
+		if c := v.round.Cmp(round); c > 0 || (c == 0 && v.roundIndex >= roundIndex) {
+			return
+		}
 	}
 
 	v.mark = make(map[VoteType]uint8)
@@ -162,6 +172,10 @@ func (v *VoteDB) ExistVoteData(voteType VoteType, round *big.Int, roundIndex uin
 }
 
 func (v *VoteDB) alreadyVoted(voteType VoteType, round *big.Int, roundIndex uint32) bool {
+	if v.round != nil && v.round.Cmp(round) > 0 {
+		// never vote in a round below one already voted in
+		return true
+	}
 	if v.round != nil && v.round.Cmp(round) == 0 {
 		if v.roundIndex > roundIndex ||
 			(v.roundIndex == roundIndex && voteType == NextIndex && v.mark[voteType] == 2) ||
